@@ -49,6 +49,8 @@ OPSETS = {
     "one": "query Q0 { q0 { id } }\nquery Q1($a: I1) { q1(a: $a) { id } }\n",
     "two": "query Q1($a: I1) { q1(a: $a) { id e5 } }\nquery Q2($b: I2!) { q2(a: $b) { nested { e3 } } }\n",
     "fragment_and_var_enum": "query QF($e: EVar) { qe(e: $e) { ...RF } }\nfragment RF on R { e5 nested { e3 } }\nfragment UnusedF on RN { e3 }\n",
+    # more input-typed variables (with repeats) than there are input types in the schema
+    "repeated_variables": "query QR(" + ", ".join(f"$v{c}: I1" for c in "abcdefg") + ") { " + " ".join(f"r{c}: q1(a: $v{c}) {{ id }}" for c in "abcdefg") + " }\n",
     "last_input": None,  # filled per n: uses In
 }
 
